@@ -797,6 +797,15 @@ impl G {
                     FR::Method(self.some_open().unwrap_or(1), SM::Unimpl(1))
                 };
                 prefix.push(f);
+                // more frames in flight behind the offending one, in the same read: they are
+                // ignored, the root cause stays ClientException
+                if self.rng.boolean() {
+                    prefix.push(FR::Heartbeat(0));
+                    if let Some(ch) = self.some_open() {
+                        let r = self.random_reply(ch);
+                        prefix.push(r);
+                    }
+                }
                 self.feed_stream(prefix, Term::Block);
                 self.flush_all();
                 self.w.is_done();
